@@ -26,7 +26,11 @@ LEVEL_TEXT = ("query_history_free (Lean, by induction over arbitrary interleavin
               "that failed before a declaration sees it afterwards. stale_witness proves the statement false without the clearing "
               "(the pinned code before the fix: commit). Per run, the memoisation discipline is re-extracted from the AST of "
               "conversions.py (which functions are lru_cache'd, which read the graph, which write it and what they clear) and the "
-              "obligation cache_discipline_ok is decided. The uncached computation being a function of the declared graph is tied to "
+              "obligation cache_discipline_ok is decided. The clause 'succeeds once it is declared' is proved for the model of "
+              "the real equate/_find_path_recursive/convert: a declared pair is found by the path search in every state "
+              "(declared_pair_is_found), equate writes both directions (equate_declares), and a quantity of the one unit converts to "
+              "the other by exactly the declared ratio (once_declared_it_converts) - also between powers, (X**2).equals(4*Y**2), where "
+              "the pinned code failed (fix: commit). The uncached computation being a function of the declared graph is tied to "
               "the code by the cache-free Lean model of the planner (differential execution of histories against the memoising "
               "implementation) and by the property's own oracle: replay of declarations + one query in a fresh interpreter.")
 LEVEL_NOTE = ("Partial: the planner itself is NOT history independent - the order of an interned unit's factor mapping, fixed by "
@@ -41,8 +45,9 @@ THEOREMS = [
     "Measured.C08.query_repeatable", "Measured.C08.declared_then_visible", "Measured.C08.stale_witness",
     "Measured.Obligations.cache_discipline_ok", "Measured.Obligations.cached_readers_cleared",
     "Measured.C08.factor_order_witness",
+    "Measured.C08.declared_pair_is_found", "Measured.C08.once_declared_it_converts", "Measured.equate_declares",
 ]
-LEAN_TARGETS = ["Props.C08", "Props.C08Planner", "Obligations.C08"]
+LEAN_TARGETS = ["Props.C08", "Props.C08Planner", "Props.C08Declared", "Obligations.C08"]
 QUICK = {"chunks": 4, "ops": 500}
 THOROUGH = {"chunks": 16, "ops": 3000}
 RULE = ("histories of 15-40 actions over 3-5 freshly defined base units and shipped units; non-trivial = a query whose "
@@ -60,6 +65,7 @@ class Context(BaseContext):
         self.extra["fresh_replays"] = 0
         self.extra["outcome_changed_after_declaration"] = 0
         self.seen = {}
+        self.declared_fail = []
 
 
 FOCUS = int(os.environ["VERIF_FOCUS_OP"]) if os.environ.get("VERIF_FOCUS_OP") else None
@@ -114,8 +120,10 @@ def final_oracle(ctx):
 
 
 def oracle(ctx, line, res):
-    # repeated identical query inside a history with no declaration in between must agree
-    return []
+    # "a conversion ... succeeds once [the equivalence] is declared": filled in by the generator right after
+    # each declaration (the conversion of the declared left-hand side to the right-hand side's unit)
+    out, ctx.declared_fail = ctx.declared_fail, []
+    return out
 
 
 def nontrivial(ctx, line, res):
@@ -182,16 +190,17 @@ def generate(ctx, n_ops):
         requery = []
         size = {anchor: 1}
         pending_fix = []
+        linear, squares = {anchor}, set()
 
-        def declare(a, b, k):
+        def declare(a, b, k, power=1):
+            """1 a**power = k b**power  (k is the ratio of the POWERS)"""
             nonlocal qn
             mag = ("i:%d" % int(k)) if k >= 1 and k == int(k) else ftok(k)
-            expr = {"f": [[b, 1]]}
+            expr = {"f": [[b, power]]}
             ub = yield from build(expr)
-            res = yield emit("U\tnamed\t%s" % a)
-            if ub is None or not res.startswith("ok\tu"):
+            ua = yield from build({"f": [[a, power]]})
+            if ub is None or ua is None:
                 return False
-            ua = int(res.split("\t")[1][1:])
             res = yield emit("X\tqnew\ti:1\tu%d" % ua)
             qa = qn
             qn += 1
@@ -201,7 +210,22 @@ def generate(ctx, n_ops):
             res = yield emit("X\tequate\tq%d\tq%d" % (qa, qb))
             if res != "ok":
                 return False
-            ctx.actions.append(["equate", a, mag, expr])
+            ctx.actions.append(["equate", a, mag, expr] if power == 1 else ["equatep", a, power, mag, expr])
+            # once declared, it converts: 1 a**power -> b**power is exactly the declared ratio
+            res = yield emit("X\tconv\tq%d\tu%d" % (qa, ub))
+            ctx.oracle_checks += 1
+            want = float(k)
+            ok = False
+            if res.startswith("ok\tq"):
+                qn += 1
+                try:
+                    got = float(parse_mag(res.split("\t")[2]))
+                    ok = got == want or abs(got - want) <= 1e-12 * abs(want)
+                except Exception:  # noqa: BLE001
+                    ok = False
+            if not ok:
+                ctx.declared_fail.append({"kind": "declared-equivalence-not-usable", "declared": "1 %s**%d = %r %s**%d" % (a, power, want, b, power),
+                                          "got": res})
             # ask again what was asked before about these units (a query or a COMPARISON that
             # failed or answered differently before the declaration must see it now)
             touched = {a, b}
@@ -250,9 +274,22 @@ def generate(ctx, n_ops):
                         pending_fix.append((a, b))
                         ctx.extra["redeclarations"] = ctx.extra.get("redeclarations", 0) + 1
                     continue
+                if rng.random() < 0.35 and a not in linear and b not in linear:
+                    # an equivalence between the SQUARES only (1 a**2 = k**2 b**2); a and b themselves stay unconnected
+                    ok = yield from declare(a, b, k * k, power=2)
+                    if ok:
+                        declared.add((a, b))
+                        squares.add(a)
+                        squares.add(b)
+                        ctx.extra["power_declarations"] = ctx.extra.get("power_declarations", 0) + 1
+                    continue
+                if a in squares or b in squares:
+                    continue
                 ok = yield from declare(a, b, k)
                 if ok:
                     declared.add((a, b))
+                    linear.add(a)
+                    linear.add(b)
                 continue
             # a query
             if len(pool) < 2:
